@@ -23,6 +23,7 @@ Expect(q) ==
     [] q.m = "da"   -> DaExpect(q.vt, q.eps, q.ex, q.mm, q.rho)
     [] q.m = "self" -> SelfExpect(q.nm, q.c, q.sigma, q.pr)
     [] q.m = "asiso" -> AsIsoExpect(q.s, q.i, q.c, q.sigma, q.pr, q.mm, q.rho)
+    [] q.m = "asisoL" -> AsIsoLangExpect(q.s, q.i, q.kk, q.sigma, q.pr, q.mm, q.rho)
 Points(q) ==
   CASE q.m = "bet"  -> [j \in 1..Len(q.ps) |-> BetPoint(q.nm, q.c, q.ps[j])]
     [] q.m = "lang" -> [j \in 1..Len(q.ps) |-> LangPoint(q.nm, q.kk, q.ps[j])]
@@ -31,10 +32,11 @@ Points(q) ==
     [] q.m = "da"   -> <<>>
     [] q.m = "self" -> [j \in 1..Len(q.ps) |-> BetPoint(q.nm, q.c, q.ps[j])]
     [] q.m = "asiso" -> [j \in 1..Len(q.ps) |-> <<q.s, BetX(q.c, q.ps[j]), RInv(BetX(q.c, q.pr))>>]    \* + q.i (added by the harness)
+    [] q.m = "asisoL" -> [j \in 1..Len(q.ps) |-> <<q.s, LangX(q.kk, q.ps[j]), RInv(LangX(q.kk, q.pr))>>]  \* + q.i
 
 ExpectDec(q, name) ==
   LET e == Expect(q)
-  IN IF name = "area" /\ q.m \in {"bet", "lang", "self", "asiso"} THEN DMul(DOfFactors(e["area_over_NA18"]), NA18)
+  IN IF name = "area" /\ q.m \in {"bet", "lang", "self", "asiso", "asisoL"} THEN DMul(DOfFactors(e["area_over_NA18"]), NA18)
      ELSE DOfFactors(e[name])
 ObsOk(q, o) == LET x == ExpectDec(q, o[1]) IN DCloseAbs(o[2], x, DTol(o[4]), DMul(DTol(o[4]), o[3]))
 
